@@ -29,8 +29,10 @@ REWRITES = {
     'R13': 'enum tuple-variant constructor used as a function value is eta-expanded: f(Variant) -> f(|x| Variant(x))',
     'R14': 'iterator-chain initialiser (`.iter().filter(..).copied().collect()`) replaced by a call to a declared function whose contract is ASSUMED (listed in evidence); only where the chain is not what the property is about',
     'R15': 'closure body lifted verbatim into a named function whose parameter list (closure parameters + captured variables, with types) is supplied by the unit; the enclosing iterator chain is not verified',
-    'R16': 'every `if C { continue; }` that is a direct statement of a for-loop body becomes `if !(C) { <rest of the body> }`, nested for several guards (Verus for-loops do not support continue)',
-    'R17': 'the k-th loop of a function lifted verbatim into a named function whose parameter list (the variables the loop reads, and `&mut` for collections it pushes to) the unit supplies; the code before and after the loop is not verified; variant: only the loop body (one iteration), with mutable locals it assigns passed in and returned',
+    'R16': 'every `if C { continue; }` (or `let PAT = E else { continue; };`) that is a direct statement of a for-loop body becomes `if !(C) { <rest of the body> }` (`if let PAT = E { <rest> }`), nested for several guards (Verus for-loops do not support continue)',
+    'R17': 'the k-th loop of a function lifted verbatim into a named function whose parameter list (the variables the loop reads, and `&mut` for collections it pushes to) the unit supplies; the code before and after the loop is not verified; variant: only the loop body (one iteration), with mutable locals it assigns passed in and returned; variant: one top-level statement of the function (e.g. a `match`) lifted the same way',
+    'R18': 'a call to a private helper of the same impl that the unit does not know (typically: freshly extracted by a refactoring) is replaced by a block that binds the parameters to the arguments and contains the helper body verbatim; only for helpers whose body has no `return`, `?` or `.await` (so the replacement has the same control flow), only when rustc reports the helper as unknown',
+    'R19': '`for (K, V) in MAP.clone()` or `for (K, V) in MAP` (by-value iteration over a HashMap, no vstd model of hash_map::IntoIter) becomes `for (vx_k, vx_v) in MAP.iter()` with `let K = vx_k.clone(); let V = vx_v.clone();` first in the body; equal under the clone==identity assumption already listed for the element types',
     'R12': 'derive(Default) expanded to the field-wise impl the derive generates (inside verus!, verified, not assumed)',
 }
 
@@ -43,7 +45,103 @@ class ToolLimit(Exception):
     pass
 
 
+AUTO_INLINE = {}      # (struct name, fn name) -> candidate (see inline_candidate); filled by the driver on E0599, per process
+
+
+def inline_candidate(paths, struct, name):
+    """R18: find `fn name` in an `impl struct` of one of the given source files and decide whether it can be inlined"""
+    for path in paths:
+        try:
+            src, items = _load(path)
+        except LostAnchor:
+            continue
+        for e in items:
+            if e['kind'] != 'fn' or e['fn'] != name or (e.get('impl') or '') != struct or e.get('trait'):
+                continue
+            if e['body'] is None or e['asyncness'] is not None or e['awaits'] or e['returns'] or e['tries']:
+                return None
+            params = []
+            has_self = False
+            for i0, i1 in e['inputs']:
+                txt = src[i0:i1].decode().strip()
+                if re.fullmatch(r'&?\s*(mut\s+)?self', txt):
+                    has_self = True
+                    continue
+                if ':' not in txt:
+                    return None
+                nm, ty = txt.split(':', 1)
+                nm = nm.strip()
+                is_mut = bool(re.match(r'^mut\s+', nm))
+                nm = re.sub(r'^mut\s+', '', nm)
+                if not re.fullmatch(r'[A-Za-z_][A-Za-z0-9_]*', nm):
+                    return None
+                params.append((('mut ' if is_mut else '') + nm, ty.strip()))
+            return {'path': path, 'e': e, 'params': params, 'has_self': has_self}
+    return None
+
+
+def _match_paren(txt, i):
+    """index just after the parenthesis that closes the one opened at txt[i] ('(')"""
+    depth = 0
+    j = i
+    in_str = False
+    while j < len(txt):
+        c = txt[j]
+        if in_str:
+            if c == '\\':
+                j += 1
+            elif c == '"':
+                in_str = False
+        elif c == '"':
+            in_str = True
+        elif c in '([{':
+            depth += 1
+        elif c in ')]}':
+            depth -= 1
+            if depth == 0:
+                return j + 1
+        j += 1
+    return -1
+
+
+def _split_args(txt):
+    out, depth, cur, in_str = [], 0, '', False
+    for k, c in enumerate(txt):
+        if in_str:
+            cur += c
+            if c == '"' and txt[k - 1] != '\\':
+                in_str = False
+            continue
+        if c == '"':
+            in_str = True
+        if c in '([{<' and not (c == '<' and cur.rstrip().endswith(('=', '-'))):
+            depth += 1 if c != '<' else 0
+        if c in ')]}':
+            depth -= 1
+        if c == ',' and depth == 0:
+            out.append(cur.strip())
+            cur = ''
+        else:
+            cur += c
+    if cur.strip():
+        out.append(cur.strip())
+    return out
+
+
 _src_cache = {}
+_BASE_SIG = None
+
+
+def base_signatures():
+    """parameter and loop-variable names of every contracted function as they were when the baseline was taken (so that
+    contract text written against those names follows a later rename)"""
+    global _BASE_SIG
+    if _BASE_SIG is None:
+        try:
+            _BASE_SIG = json.load(open(os.path.join(ROOT, 'baseline_signatures.json')))
+        except Exception:
+            _BASE_SIG = {}
+    return _BASE_SIG
 
 
 def _load(path):
@@ -110,6 +208,7 @@ class Unit:
         self.bounded = []
         self.notes = []
         self.canary_skip = set()
+        self.signatures = {}        # fid -> {'params': [...], 'loops': [...]} as spelled in the tree being checked
         self.auto_opaque = False
         self.auto_added = []
         self.enum_variants = {}   # enum name -> (variants present in the extracted enum, has VxOther)
@@ -326,7 +425,7 @@ pub assume_specification [<{q} as PartialEq>::eq] (a: &{q}, b: &{q}) -> (r: bool
     # ---------- functions ----------
     def fn(self, path, impl, fn, requires=(), ensures=(), loops=None, ghost=(), subst=(), trait=None,
            erase_async=False, mut_self=False, ret_name='r', decreases=None, keep_macros=(), external_body=False,
-           let_chains=True, fmt=True, hash_loops=(), vis='pub', recommends=(), trait_full=None, keep_arms=None, as_inherent=False, copied_loops=(), eta=(), closures=None, continue_guards=()):
+           let_chains=True, fmt=True, hash_loops=(), vis='pub', recommends=(), trait_full=None, keep_arms=None, as_inherent=False, copied_loops=(), eta=(), closures=None, continue_guards=(), deref_loops=(), attrs=(), clone_loops=()):
         """Extract one fn verbatim and splice its contract.  Returns a list of Seg (to be put in an impl block).
         requires/ensures: list of (name, text).  loops: {ordinal: dict(invariant=[(name,text)], decreases=text, iter='vx_it')}
         ghost: list of (anchor, text) with anchor in ('body_start',), ('body_end',), ('loop_start',k), ('loop_end',k),
@@ -347,7 +446,34 @@ pub assume_specification [<{q} as PartialEq>::eq] (a: &{q}, b: &{q}) -> (r: bool
         bs, be = e['body']
         edits = []
 
+        def _pname(txt):
+            nm = txt.split(':')[0].strip()
+            nm = re.sub(r'^(&\s*)?(mut\s+)?', '', nm).strip()
+            return nm if re.fullmatch(r'[A-Za-z_][A-Za-z0-9_]*', nm) else None
+        now_params = [_pname(src[i0:i1].decode()) for i0, i1 in e['inputs']]
+        now_loops = []
+        for L0 in e['loops']:
+            pt = re.sub(r'^(mut|ref)\s+', '', src[L0['pat'][0]:L0['pat'][1]].decode().strip().lstrip('&').strip()) if L0['kind'] == 'for' else None
+            now_loops.append(pt if pt and re.fullmatch(r'[A-Za-z_][A-Za-z0-9_]*', pt) else None)
+        self.signatures[fid] = {'params': now_params, 'loops': now_loops}
+        renames = {}
+        bsig = base_signatures().get(fid)
+        if bsig:
+            for old_l, new_l in ((bsig.get('params', []), now_params), (bsig.get('loops', []), now_loops)):
+                if len(old_l) == len(new_l):
+                    for o_, n_ in zip(old_l, new_l):
+                        if o_ and n_ and o_ != n_ and o_ != 'self':
+                            renames[o_] = n_
+            # a renamed name must not collide with a name the text already uses for something else
+            renames = {o_: n_ for o_, n_ in renames.items() if n_ not in renames or renames[n_] == n_}
+
         def LV(t):
+            # contract text was written against the baseline names of parameters and loop variables; follow a rename
+            for o_, n_ in renames.items():
+                t = re.sub(r'(?<![.\w@])' + re.escape(o_) + r'\b', n_, t)
+            return LV0(t)
+
+        def LV0(t):
             # `@LV<k>@` in invariant / ghost text stands for the pattern of the k-th for-loop as it is spelled in /repo NOW
             # (so renaming a loop variable does not break the proof text that has to mention it)
             def rep(m):
@@ -355,6 +481,18 @@ pub assume_specification [<{q} as PartialEq>::eq] (a: &{q}, b: &{q}) -> (r: bool
                 if kk >= len(e['loops']) or e['loops'][kk]['kind'] != 'for':
                     raise LostAnchor(f'{fn}: @LV{kk}@: no such for-loop')
                 return re.sub(r'^(mut|ref)\s+', '', src[e['loops'][kk]['pat'][0]:e['loops'][kk]['pat'][1]].decode().strip().lstrip('&').strip())
+            def rep_arg(m):
+                # `@ARG<k>@`: the name of the k-th parameter (0 = the receiver, if any) as it is spelled in /repo NOW
+                kk = int(m.group(1))
+                if kk >= len(e['inputs']):
+                    raise LostAnchor(f'{fn}: @ARG{kk}@: the function has only {len(e["inputs"])} parameters')
+                txt = src[e['inputs'][kk][0]:e['inputs'][kk][1]].decode()
+                nm = txt.split(':')[0].strip()
+                nm = re.sub(r'^(&\s*)?(mut\s+)?', '', nm).strip()
+                if not re.fullmatch(r'[A-Za-z_][A-Za-z0-9_]*', nm):
+                    raise ToolLimit(f'{fn}: @ARG{kk}@: parameter pattern `{txt}` is not a plain name')
+                return nm
+            t = re.sub(r'@ARG(\d+)@', rep_arg, t)
             return re.sub(r'@LV(\d+)@', rep, t)
         # attributes and doc comments dropped; visibility -> pub (R4)
         start = e['sig'][0]
@@ -410,6 +548,7 @@ pub assume_specification [<{q} as PartialEq>::eq] (a: &{q}, b: &{q}) -> (r: bool
                 return []
             segs = [Seg(f'{indent}{kind}\n')]
             for nm, text in items:
+                text = LV(text)
                 cid = f'{fid}.{kind}.{nm}'
                 if cid in self.clauses:
                     raise ToolLimit(f'duplicate clause id {cid}')
@@ -468,10 +607,17 @@ pub assume_specification [<{q} as PartialEq>::eq] (a: &{q}, b: &{q}) -> (r: bool
             lb0, lb1 = L['body']
             btxt = src[lb0:lb1].decode()
             found = []
-            for m16 in re.finditer(r'if\s+([^{};]+?)\s*\{\s*continue\s*;?\s*\}', btxt):
+            CM = r'(?:\s*//[^\n]*\n)*\s*'
+            for m16 in re.finditer(r'(?<![A-Za-z0-9_])if\s+([^{};]+?)\s*\{' + CM + r'continue\s*;?' + CM + r'\}', btxt):
+                depth = btxt[:m16.start()].count('{') - btxt[:m16.start()].count('}')
+                if depth == 1 and not re.search(r'else\s*$', btxt[:m16.start()]):
+                    found.append(m16)
+            # `let PAT = E else { continue; };` -> `if let PAT = E { REST }`
+            for m16 in re.finditer(r'(?<![A-Za-z0-9_])let\s+([^=;{}]+?)\s*=\s*([^;{}]+?)\s*else\s*\{' + CM + r'continue\s*;?' + CM + r'\}\s*;', btxt):
                 depth = btxt[:m16.start()].count('{') - btxt[:m16.start()].count('}')
                 if depth == 1:
                     found.append(m16)
+            found.sort(key=lambda m: m.start())
             if not found:
                 if k in continue_guards:
                     raise LostAnchor(f'{fn}: loop #{k} has no top-level `if C {{ continue; }}` (R16)')
@@ -484,7 +630,10 @@ pub assume_specification [<{q} as PartialEq>::eq] (a: &{q}, b: &{q}) -> (r: bool
             for m16 in found:
                 s16 = lb0 + len(btxt[:m16.start()].encode())
                 e16 = lb0 + len(btxt[:m16.end()].encode())
-                edits.append((s16, e16, [Seg(f'if !({m16.group(1).strip()}) {{')]))
+                if m16.group(0).startswith('let'):
+                    edits.append((s16, e16, [Seg(f'if let {m16.group(1).strip()} = {m16.group(2).strip()} {{')]))
+                else:
+                    edits.append((s16, e16, [Seg(f'if !({m16.group(1).strip()}) {{')]))
                 self._rw('R16')
             edits.append((lb1 - 1, lb1 - 1, [Seg('} ' * len(found))]))
         # R3
@@ -500,6 +649,17 @@ pub assume_specification [<{q} as PartialEq>::eq] (a: &{q}, b: &{q}) -> (r: bool
             edits.append((s0 + len(ex[:m3.start()].encode()), t0, []))
             edits.append((L['body'][0] + 1, L['body'][0] + 1, [Seg(f' let {pat} = *vx_c{k}; ')]))
             self._rw('R3')
+        edits += self._inline_edits(src, bs, be, e.get('impl'))
+        # R3 (second form): the loop iterates references where the source iterates copies of them (after an accessor that is
+        # `.keys().copied()` has been inlined by a tagged substitution): bind the pattern by an explicit deref
+        for k in deref_loops:
+            L = e['loops'][k]
+            if L['kind'] != 'for':
+                raise ToolLimit(f'{fn}: deref_loops wants a for-loop at {k}')
+            pat = src[L['pat'][0]:L['pat'][1]].decode()
+            edits.append((L['pat'][0], L['pat'][1], [Seg(f'vx_c{k}')]))
+            edits.append((L['body'][0] + 1, L['body'][0] + 1, [Seg(f' let {pat} = *vx_c{k}; ')]))
+            self._rw('R3')
         # R8
         for k in hash_loops:
             L = e['loops'][k]
@@ -511,6 +671,21 @@ pub assume_specification [<{q} as PartialEq>::eq] (a: &{q}, b: &{q}) -> (r: bool
                 ex = ex[1:].strip()
             edits.append((s, t, [Seg(ex + '.iter()')]))
             self._rw('R8')
+        # R19: `for (K, V) in MAP.clone()` (by-value iteration of a cloned HashMap; vstd has no model of hash_map::IntoIter) ->
+        # `for (vx_k, vx_v) in MAP.iter()` with `let K = vx_k.clone(); let V = vx_v.clone();` first in the body
+        for k in clone_loops:
+            L = e['loops'][k]
+            s, t = L['expr']
+            ex = src[s:t].decode()
+            m19 = re.search(r'\s*\.clone\(\)\s*$', ex)
+            pat = src[L['pat'][0]:L['pat'][1]].decode().strip()
+            mp = re.fullmatch(r'\(\s*([A-Za-z_][A-Za-z0-9_]*)\s*,\s*([A-Za-z_][A-Za-z0-9_]*)\s*,?\s*\)', pat)
+            if L['kind'] != 'for' or not mp or ex.lstrip().startswith('&') or ex.rstrip().endswith(')') and not m19:
+                raise ToolLimit(f'{fn}: R19 wants `for (K, V) in MAP.clone()` or `for (K, V) in MAP` (a place expression) at loop {k}')
+            edits.append((L['pat'][0], L['pat'][1], [Seg(f'(vx_k{k}, vx_v{k})')]))
+            edits.append(((s + len(ex[:m19.start()].encode())) if m19 else t, t, [Seg('.iter()')]))
+            edits.append((L['body'][0] + 1, L['body'][0] + 1, [Seg(f' let {mp.group(1)} = vx_k{k}.clone(); let {mp.group(2)} = vx_v{k}.clone(); ')]))
+            self._rw('R19')
         # R1 / R2
         for m in e['macros']:
             nm = m['name']
@@ -683,6 +858,8 @@ pub assume_specification [<{q} as PartialEq>::eq] (a: &{q}, b: &{q}) -> (r: bool
         segs = _apply_edits(src, a, b, edits)
         if external_body:
             segs.insert(0, Seg('#[verifier::external_body]\n'))
+        for at in attrs:
+            segs.insert(0, Seg(at + '\n'))
         segs.insert(0, Seg(f'/*VXFN {fid}*/ '))
         segs.append(Seg(f' /*VXEND {fid}*/\n'))
         for s in segs:
@@ -724,7 +901,57 @@ pub assume_specification [<{q} as PartialEq>::eq] (a: &{q}, b: &{q}) -> (r: bool
                 gsegs.append(Seg(p))
         return gsegs
 
-    def _inner_edits(self, src, e, lo, hi, fn):
+    def _nested_closure_edits(self, src, e, lo, hi, specs, fid, clause_list, fn, strict_inside=False):
+        """contracts for the closures that lie inside [lo, hi) (numbered in source order among those), as in fn()"""
+        edits = []
+        nested = [c2 for c2 in e['closures'] if lo <= c2['span'][0] and c2['span'][1] <= hi and not (strict_inside and c2['body'][0] == lo)]
+        for kk, spec in (specs or {}).items():
+            if kk >= len(nested):
+                raise LostAnchor(f'{fn}: nested closure #{kk} not found')
+            C2 = nested[kk]
+            cs2, ct2 = C2['span']
+            b2s, b2t = C2['body']
+            cid = f'{fid}.closure{kk}.ensures'
+            self.clauses[cid] = {'kind': 'ensures', 'fn': fid, 'text': ' '.join(spec['ensures'].split())}
+            clause_list.append(cid)
+            is_block = src[b2s:b2s + 1] == b'{'
+            edits.append((cs2, b2s, [Seg(spec['header'] + ' ensures '), Seg(spec['ensures'], clause=cid, fn=fid), Seg(' ' if is_block else ' { ')]))
+            if not is_block:
+                edits.append((b2t, b2t, [Seg(' }')]))
+        return edits
+
+    def _inline_edits(self, src, lo, hi, impl):
+        """R18 edits for calls to AUTO_INLINE helpers of `impl` inside [lo, hi)"""
+        edits = []
+        if not impl:
+            return edits
+        txt = src[lo:hi].decode()
+        for (st, nm), cand in AUTO_INLINE.items():
+            if st != impl.split('<')[0].strip():
+                continue
+            pat = (r'\bself\s*\.\s*' if cand['has_self'] else r'\b(?:Self|' + re.escape(st) + r')\s*::\s*') + re.escape(nm) + r'\s*\('
+            for m in re.finditer(pat, txt):
+                close = _match_paren(txt, m.end() - 1)
+                if close < 0:
+                    continue
+                args = _split_args(txt[m.end():close - 1])
+                if len(args) != len(cand['params']):
+                    continue
+                hsrc, _ = _load(cand['path'])
+                he = cand['e']
+                hb0, hb1 = he['body']
+                body_segs = _apply_edits(hsrc, hb0, hb1, self._inner_edits(hsrc, he, hb0, hb1, nm, inline=False))
+                body = ''.join(sg.text for sg in body_segs)
+                binds = ' '.join((f'let {pn} = {a};' if 'crate::' in pt or 'impl ' in pt else f'let {pn}: {pt} = {a};') for (pn, pt), a in zip(cand['params'], args))
+                s0 = lo + len(txt[:m.start()].encode())
+                s1 = lo + len(txt[:close].encode())
+                edits.append((s0, s1, [Seg('({ ' + binds + ' ' + body + ' })')]))
+                self._rw('R18')
+                if f'inlined helper {st}::{nm} (R18)' not in self.notes:
+                    self.notes.append(f'inlined helper {st}::{nm} (R18)')
+        return edits
+
+    def _inner_edits(self, src, e, lo, hi, fn, inline=True):
         """R1 / R2 / R5 for the part [lo, hi) of a function, exactly as fn() applies them to a whole body"""
         edits = []
         for m in e['macros']:
@@ -756,10 +983,12 @@ pub assume_specification [<{q} as PartialEq>::eq] (a: &{q}, b: &{q}) -> (r: bool
             edits.append((ts + 1, ts + 1, [Seg(' if ' + ' && '.join(parts[1:]) + ' {')]))
             edits.append((tt - 1, tt - 1, [Seg('} ')]))
             self._rw('R5')
+        if inline:
+            edits += self._inline_edits(src, lo, hi, e.get('impl'))
         return edits
 
     def loop_fn(self, path, impl, fn, k, name, sig, requires=(), ensures=(), invariant=(), iter=None, trait=None,
-                ghost_before='', ghost_loop_start='', ghost_loop_end='', ghost_after='', tail='', body_only=False):
+                ghost_before='', ghost_loop_start='', ghost_loop_end='', ghost_after='', tail='', body_only=False, inner_closures=None):
         """R17: the k-th loop of a krill fn, verbatim, as the body of a standalone fn `name sig`.
         body_only: only the loop BODY block is lifted (one iteration); mutable locals the body assigns are declared by
         `ghost_before` (e.g. `let mut required = required0;`) and returned by `tail` -- both supplied by the unit."""
@@ -791,7 +1020,7 @@ pub assume_specification [<{q} as PartialEq>::eq] (a: &{q}, b: &{q}) -> (r: bool
         segs += self._ghost_segs(ghost_before, fid, clause_list)
         if body_only:
             bs_, bt_ = L['body']
-            segs += _apply_edits(src, bs_, bt_, self._inner_edits(src, e, bs_, bt_, fn))
+            segs += _apply_edits(src, bs_, bt_, self._inner_edits(src, e, bs_, bt_, fn) + self._nested_closure_edits(src, e, bs_, bt_, inner_closures, fid, clause_list, fn))
             segs.append(Seg('\n'))
             segs += self._ghost_segs(ghost_after, fid, clause_list)
             segs.append(Seg(tail + '\n}'))
@@ -848,7 +1077,51 @@ pub assume_specification [<{q} as PartialEq>::eq] (a: &{q}, b: &{q}) -> (r: bool
         self.extracted.append((path, f'loop #{k} of fn {(impl + "::") if impl else ""}{fn} [loop only]'))
         return segs
 
-    def closure_fn(self, path, impl, fn, k, name, sig, requires=(), ensures=(), trait=None, ghost_start='', ghost_end=''):
+    def stmt_fn(self, path, impl, fn, k, name, sig, requires=(), ensures=(), trait=None, ghost_before='', ghost_after='', tail='', inner_closures=None):
+        """R17 (statement variant): the k-th top-level statement of a krill fn, verbatim, as the body of a standalone fn `name sig`."""
+        kw = {'fn': fn}
+        if impl is not None:
+            kw['impl'] = impl
+        if trait is not None:
+            kw['trait'] = trait
+        src, e = find(path, 'fn', **kw)
+        if k >= len(e['stmts']):
+            raise LostAnchor(f'{fn}: statement #{k} not found ({len(e["stmts"])} statements)')
+        st = e['stmts'][k]
+        ss, st_ = (st[0], st[1]) if isinstance(st, (list, tuple)) else (st['span'][0], st['span'][1])
+        fid = f'{self.prop}.{self.name}.{(impl + "::") if impl else ""}{fn}.stmt{k}'
+        clause_list = []
+        segs = [Seg(f'/*VXFN {fid}*/ pub fn {name}{sig}\n/*VXC*/\n')]
+        for kind, items in (('requires', requires), ('ensures', ensures)):
+            if not items:
+                continue
+            segs.append(Seg(f'        {kind}\n'))
+            for nm, text in items:
+                cid = f'{fid}.{kind}.{nm}'
+                self.clauses[cid] = {'kind': kind, 'fn': fid, 'text': ' '.join(text.split())}
+                clause_list.append(cid)
+                segs.append(Seg('            '))
+                segs.append(Seg(text.strip().rstrip(','), clause=cid, fn=fid))
+                segs.append(Seg(',\n'))
+        segs.append(Seg('/*VXCE*/{\n'))
+        segs += self._ghost_segs(ghost_before, fid, clause_list)
+        segs += _apply_edits(src, ss, st_, self._inner_edits(src, e, ss, st_, fn) + self._nested_closure_edits(src, e, ss, st_, inner_closures, fid, clause_list, fn))
+        segs.append(Seg('\n'))
+        segs += self._ghost_segs(ghost_after, fid, clause_list)
+        segs.append(Seg(tail + '\n}'))
+        segs.append(Seg(f' /*VXEND {fid}*/\n'))
+        for sg in segs:
+            if sg.fn is None:
+                sg.fn = fid
+        cid = f'{fid}.safety'
+        self.clauses[cid] = {'kind': 'safety', 'fn': fid, 'text': 'implicit: callee preconditions, arithmetic overflow, index bounds, unwrap, panic!/unreachable! arms unreachable'}
+        clause_list.append(cid)
+        self.functions.append({'id': fid, 'path': path, 'impl': impl, 'fn': name, 'clauses': clause_list, 'loops': 0, 'trait': False})
+        self._rw('R17')
+        self.extracted.append((path, f'statement #{k} of fn {(impl + "::") if impl else ""}{fn} [one statement]'))
+        return segs
+
+    def closure_fn(self, path, impl, fn, k, name, sig, requires=(), ensures=(), trait=None, ghost_start='', ghost_end='', inner_closures=None):
         """R15: the body of the k-th closure of a krill fn, verbatim, as a standalone fn `name sig`; sig must name the closure's
         own parameters and the variables it captures, e.g. '(other: &ConfiguredRoa, roa: &ConfiguredRoa) -> (r: bool)'."""
         kw = {'fn': fn}
@@ -878,6 +1151,7 @@ pub assume_specification [<{q} as PartialEq>::eq] (a: &{q}, b: &{q}) -> (r: bool
         segs.append(Seg('/*VXCE*/{\n'))
         segs += self._ghost_segs(ghost_start, fid, clause_list)
         edits = self._inner_edits(src, e, cbs, cbt, fn)
+        edits += self._nested_closure_edits(src, e, cbs, cbt, inner_closures, fid, clause_list, fn, strict_inside=True)
         segs += _apply_edits(src, cbs, cbt, edits)
         segs.append(Seg('\n' + ghost_end + '}'))
         segs.append(Seg(f' /*VXEND {fid}*/\n'))
